@@ -66,6 +66,15 @@ func (k *Keys) GetCursorPos() (x, y int) {
 			return disable()
 		}
 
+		// The user might have typed something just before or after
+		// the terminal answered: those keys were read along with
+		// the cursor position, and are user input as well.
+		if _, keys := k.extractCursorPos(cursor); len(keys) > 0 {
+			k.mutex.RLock()
+			k.buf = append(k.buf, keys...)
+			k.mutex.RUnlock()
+		}
+
 		break
 	}
 
